@@ -1,4 +1,5 @@
 CONSTANTS N = 4 B = 2
+  BIG = {16777217, 16777219, 33554435, 100000001, 1073741825, 2147483639}
 SPECIFICATION Spec
-INVARIANTS LawInRange LawLenIsRangeLen LawDefaults LawNegativeCountsFromEnd LawViewElements
+INVARIANTS LawInRange LawLenIsRangeLen LawLenBoundary LawDefaults LawNegativeCountsFromEnd LawViewElements
 CHECK_DEADLOCK FALSE
